@@ -703,7 +703,8 @@ class Engine:
     def interior_model(self):
         """A model of the path condition in which every non-strict order fact holds strictly whenever the path allows it
         (used for the float64 validation run: a tie exactly on a branch boundary is where float rounding flips a branch)."""
-        strict, margin = [], []
+        strict, margin, fact_terms = [], [], []
+        small_used = False
         mu = z3.RealVal("1/100")  # above the tolerance of the concrete comparisons (1e-7 + 1e-6 |x|) for |x| <= 1000
         for key, mask in self.facts.items():
             t = to_z3(dict(key))
@@ -712,8 +713,10 @@ class Engine:
             # (a margin keeps the strictness through the conversion of the model to doubles)
             if mask in (1, 3):
                 margin.append(t <= -mu)
+                fact_terms.append((t, -1))
             elif mask in (4, 6):
                 margin.append(t >= mu)
+                fact_terms.append((t, 1))
         margin = margin + list(self.soft)
         if margin:
             # all margins at once; where the path itself forces an equality (x <= k and x >= k) the offending margins are found
@@ -742,10 +745,17 @@ class Engine:
                     active = [pb for pb in active if str(pb) not in core]
                     if not active:
                         break
+                if model is None:
+                    # the cores did not converge: start from no margins at all and add them back greedily
+                    self.queries += 1
+                    if self.solver.check() == z3.sat:
+                        model, active = self.solver.model(), []
                 if model is not None and len(active) < len(ps):
-                    # cores are not minimal: put the dropped margins back one at a time where the path allows it
+                    # cores are not minimal: put the dropped margins back one at a time where the path allows it; a margin that
+                    # does not fit (a branch cell narrower than 0.01) is tried again at 1e-4 and 1e-6
                     names = {str(a) for a in active}
-                    for pb in ps:
+                    n_facts = len(ps) - len(self.soft)
+                    for i, pb in enumerate(ps):
                         if str(pb) in names:
                             continue
                         self.queries += 1
@@ -753,12 +763,29 @@ class Engine:
                             active.append(pb)
                             names.add(str(pb))
                             model = self.solver.model()
+                            continue
+                        if i >= n_facts:
+                            continue
+                        for k, small in enumerate(("1/10000", "1/1000000")):
+                            # the same fact with a smaller margin
+                            fact = fact_terms[i]
+                            sm = z3.RealVal(small)
+                            c2 = (fact[0] <= -sm) if fact[1] < 0 else (fact[0] >= sm)
+                            qb = z3.Bool("__margin%d_%d" % (i, k))
+                            self.solver.add(z3.Implies(qb, c2))
+                            self.queries += 1
+                            if self.solver.check(*(active + [qb])) == z3.sat:
+                                active.append(qb)
+                                model = self.solver.model()
+                                small_used = True
+                                break
             finally:
                 self.solver.pop()
                 self.solver_s += time.time() - t0
             if model is not None:
                 n_hard = len(ps) - len(self.soft)
-                return model, all(str(pb) in {str(a) for a in active} for pb in ps[:n_hard])
+                act = {str(a) for a in active}
+                return model, all(str(pb) in act or any(("%s_%d" % (pb, k)) in act for k in (0, 1)) for pb in ps[:n_hard])
         if not strict:
             return self.get_model(), True
         r = self._check(*strict)
